@@ -653,6 +653,10 @@ func (e *SpecEnv) call(c *ECall) Val {
 	case "allocated":
 		// the reference existed in the pre-state
 		v := e.eval(c.Args[0])
+		if e.oldHeaps == nil && !e.inOld {
+			// in a precondition evaluated at a call site "allocated" means: exists now
+			return mkBool(fmt.Sprintf("(< %s %s)", refTerm(v), x.heap(e.st, "$alloc", "Int")))
+		}
 		a := e.withOld(func() Val { return mkInt(x.heap(e.st, "$alloc", "Int")) })
 		return mkBool(fmt.Sprintf("(< %s %s)", refTerm(v), a.T))
 	case "fresh":
